@@ -89,4 +89,12 @@ Definition sorted_keys_b (s : tstate) : bool :=
 Definition touch_leaves (s : tstate) : tstate := fold_left (fun s i => fst (g_legs n s [i])) (seq 0 N) s.
 Definition extract_all (prefer_einsum : bool) (nodes : list (node * (node * node))) (s : tstate) : tstate :=
   touch_leaves (extract prefer_einsum nodes s).
+
+(* the children dict describes a COMPLETE binary tree over all N leaves, with no entry besides the
+   N-1 internal nodes of that tree *)
+Definition complete_b (s : tstate) : bool :=
+  match tree_of (tfuel s) (children s) (seq 0 N) with
+  | Some _ => Nat.eqb (length (children s)) (N - 1)
+  | None => false
+  end.
 End Rec.
